@@ -46,6 +46,7 @@ structure Exec where
   rqPipe : Bool := false      -- result queue pipe open
   qObjs : Bool := false       -- call queue, result queue and management lock objects exist (6 named semaphores)
   feeder : Bool := false      -- QueueFeederThread running
+  blocked : Bool := false     -- … and inside `send_bytes` of an item larger than the pipe buffer that nobody reads
   manager : Bool := false     -- ExecutorManagerThread running
   workers : Nat := 0          -- Process objects in `_processes`: child (live or zombie) + sentinel fd + exit-lock semaphore each
   execRefs : Bool := false    -- the executor object still references the queues, the lock, the wake-up pipe
@@ -74,6 +75,8 @@ inductive Op
   | spawn           -- one iteration of `_adjust_process_count`
   | startManager    -- `_start_executor_manager_thread`
   | put             -- first `put` on the call queue: feeder thread starts
+  | putBig          -- a task larger than the pipe buffer is queued while every worker is busy: the feeder blocks mid-send
+  | serve           -- a worker becomes free and reads the call queue: a blocked feeder goes on
   | reapOne         -- `process_result_item` of a worker pid: pop, release exit lock, `join`
   | killWorkers     -- `kill_workers`: popitem + `kill_process_tree` (which joins) until empty
   | crashed         -- a worker died by itself and `terminate_broken` polled its exit code: reaped, never joined
@@ -88,11 +91,17 @@ def apply (e : Exec) : Op → Exec
   | .spawn => { e with workers := e.workers + 1, lingering := 0 }    -- `BaseProcess.start` runs `_cleanup()` first
   | .startManager => { e with manager := true, mgrRefs := true }
   | .put => { e with feeder := e.cqPipe }
+  | .putBig => { e with feeder := e.cqPipe, blocked := e.cqPipe }
+  | .serve => { e with blocked := false }
   | .reapOne => { e with workers := e.workers - 1 }
-  | .killWorkers => { e with workers := 0 }
+  -- `kill_workers` ends with `self.call_queue._reader.close()`: a feeder blocked mid-send gets EPIPE, closes the
+  -- writer and ends (the fix of D22; a feeder that is not blocked goes on waiting for its sentinel)
+  | .killWorkers => { e with workers := 0, blocked := false, feeder := e.feeder && !e.blocked,
+                             cqPipe := e.cqPipe && !e.blocked }
   | .crashed => if e.workers = 0 then e else { e with workers := e.workers - 1, lingering := e.lingering + 1 }
   | .joinInternals => { e with cqPipe := e.feeder, rqPipe := false, wakeup := false, workers := 0 }
-  | .feederExit => { e with feeder := false, cqPipe := false }
+  -- a feeder blocked in `send_bytes` does not see the sentinel `call_queue.close()` has queued
+  | .feederExit => if e.blocked then e else { e with feeder := false, cqPipe := false }
   | .managerExit => { e with manager := false, mgrRefs := false }
   | .dropRefs => { e with execRefs := false }
 
@@ -154,5 +163,63 @@ def Life.spawns : Life → Bool
 /-- a shutdown has completed and the executor has been released -/
 def Released (e : Exec) : Prop :=
   e.manager = false ∧ e.feeder = false ∧ e.execRefs = false ∧ e.mgrRefs = false ∧ e.workers = 0
+
+/-! ## oversized tasks queued behind busy workers (D22)
+
+A task whose pickled arguments exceed the pipe buffer, queued while every worker is busy, leaves the
+QueueFeederThread inside `send_bytes`.  It goes on when a worker reads (`serve`), or — since the fix of D22 —
+when `kill_workers` closes the read end of the call queue (EPIPE).  It never sees the sentinel of
+`call_queue.close()`. -/
+
+/-- how a pool with an oversized queued task is torn down -/
+inductive Route
+  | sigkill        -- a worker is killed from outside: `terminate_broken`
+  | killShutdown   -- `shutdown(kill_workers=True)`
+  | replaceKill    -- `get_reusable_executor(kill_workers=True)` with other arguments: the same shutdown
+  | graceful       -- the busy tasks end, the workers serve the queue, `shutdown(wait=True)`
+  deriving DecidableEq, Repr, Inhabited
+
+def progBig (r : Route) (n : Nat) : List Op :=
+  [.ctor] ++ rep n .spawn ++ [.startManager, .put, .putBig] ++
+    (match r with
+     | .sigkill => [.crashed, .killWorkers, .joinInternals, .managerExit, .dropRefs, .feederExit]
+     | .killShutdown | .replaceKill => [.killWorkers, .joinInternals, .managerExit, .dropRefs, .feederExit]
+     | .graceful => [.serve, .joinInternals, .managerExit, .dropRefs, .feederExit])
+
+def runBig (r : Route) (n : Nat) (l0 : Nat := 0) : Exec := runOps { lingering := l0 } (progBig r n)
+
+/-- the tree before the fix of D22: `kill_workers` left the read end of the call queue open -/
+def applyOld (e : Exec) : Op → Exec
+  | .killWorkers => { e with workers := 0 }
+  | op => apply e op
+
+def runOpsOld (e : Exec) (ops : List Op) : Exec := ops.foldl applyOld e
+
+/-! ## what the caller keeps: futures
+
+A `Future` references its result or exception, nothing else.  What loky stores there (line numbers of
+`process_executor.py`): a result unpickled from the result queue (l.812); a task exception rebuilt from the
+pickled `_ExceptionWithTraceback` with a *textual* `_RemoteTraceback` cause (l.810); for arguments that cannot
+be pickled a fresh `PicklingError` whose cause is the *formatted* traceback of the feeder thread's error
+(`_on_queue_feeder_error` l.326-341 — not the error itself, whose traceback holds the frame of `Queue._feed`
+and through its locals the call queue); for a result that cannot be pickled the same, built in the worker; for a
+broken or killed pool an error object built by the manager thread from strings (l.697-740, l.873-879).  None of
+them references the call queue, a pipe, a Process or a lock. -/
+
+inductive FutKind
+  | result | taskError | unsendableArgs | unpicklableResult | brokenPool | killedPool
+  deriving DecidableEq, Repr, Inhabited
+
+/-- does what a future of this kind stores reference the executor's call queue?  The code as it is: never. -/
+def futurePins : FutKind → Bool := fun _ => false
+
+/-- what kept futures add to the process ledger: a referenced call queue keeps its read end (closed only by
+    its finalizer) and its three named semaphores -/
+def keptCounts (pins : FutKind → Bool) (kept : List FutKind) : Counts :=
+  { fds := (kept.filter pins).length, threads := 0, children := 0, sems := 3 * (kept.filter pins).length }
+
+/-- the process ledger after a sequence of lifecycles of each of which the caller kept some futures -/
+def runSeqKept (pins : FutKind → Bool) (base : Counts) (ls : List (Life × List FutKind)) : Counts :=
+  runSeq base (ls.map Prod.fst) + keptCounts pins (ls.flatMap Prod.snd)
 
 end LokyModel.Ledger
